@@ -19,9 +19,9 @@ FUNCTIONS = ["UnitDatabase.CheckCategoryUnit memo (_category_unit_valid)", "Unit
              "AbstractValueWithQuantityObject.GetValidUnits", "Quantity.CheckValue with the captured CategoryInfo", "UnitDatabase.AddUnit/AddUnitBase/AddCategory (invalidation)",
              "UnitDatabase.Convert/GetInfo/GetDefaultCategory/FindUnitCase/GetUnits/GetQuantityTypes", "Scalar/Array/FractionScalar construction and IsValid"]
 BOUNDS = {
-    "quick": "amounts and limits: all reals; pre-state: length(m, cm) + time(s) with categories length, depth(min 0); histories: one of 26 queries (read-only or failing), "
-             "then one of 9 registrations (accepted or rejected), then the battery of all 26 queries compared warm vs fresh; all 26x9 histories",
-    "thorough": "same with two queries before the registration (all 26x26x9) and a second registration after the first battery (seeded 4000)",
+    "quick": "amounts and limits: all reals; pre-state: length(m, cm) + time(s) with categories length, depth(min 0); histories: one of 30 queries (read-only or failing), "
+             "then one of 9 registrations (accepted or rejected), then the battery of all 30 queries compared warm vs fresh; all 30x9 histories",
+    "thorough": "same with two queries before the registration (all 30x30x9) and a second registration after the first battery (seeded 4000)",
 }
 ASSUMPTIONS = ["A-FP", "'fresh database built from the same registrations' = the pre-state registrations plus the history's ACCEPTED registrations, in order",
                "memo tables are not part of the registry snapshot (their invisibility is exactly the second clause)"]
@@ -54,6 +54,12 @@ def queries(V):
     Q = [
         ("CreateDerived(m/s, caption)", lambda: (lambda q: (q.GetUnit(), q.GetUnknownCaption()))(Quantity.CreateDerived(spec(), unknown_unit_caption="flow-ish"))),
         ("CreateDerived(m/s)", lambda: (lambda q: (q.GetUnit(), q.GetUnknownCaption()))(Quantity.CreateDerived(spec()))),
+        ("CreateDerived(length:[s,2]) [unit foreign to the category]", lambda: Quantity.CreateDerived(OrderedDict([("length", ["s", 2])])).GetUnit()),
+        ("ObtainQuantity([(s,2)],[length]) [unvalidated form]", lambda: ObtainQuantity([("s", 2)], ["length"]).GetUnit()),
+        ("db.GetUnits() / GetInfos() without argument", lambda: (len(db().GetUnits()), len(db().GetInfos()), list(db().GetUnits("length")), list(db().GetUnits("time")))),
+        ("sum with a left operand holding one quantity type in two units", lambda: (lambda a, b: ((a + b).GetValue(), (a + b).GetUnit(), a.GetUnit(), a.GetQuantity().GetUnitName()))(
+            Scalar.CreateWithQuantity(Quantity.CreateDerived(OrderedDict([("length", ["m", 1]), ("width", ["cm", -1])])), x),
+            Scalar.CreateWithQuantity(Quantity.CreateDerived(OrderedDict([("length", ["m", 1]), ("width", ["m", -1])])), y))),
         ("Scalar(x,m,c9) [c9 registered later]", lambda: (lambda s: (s.GetValue("cm"), s.GetCategory()))(Scalar(x, "m", "c9"))),
         ("db.CheckCategoryUnit(c9,cm)", lambda: db().CheckCategoryUnit("c9", "cm")),
         ("Scalar(x,m,depth).GetValue(cm)", lambda: Scalar(x, "m", "depth").GetValue("cm")),
@@ -97,7 +103,7 @@ def registrations(V):
     ]
 
 
-NQ, NR = 26, 9
+NQ, NR = 30, 9
 
 
 def items(tier, seed):
